@@ -34,6 +34,9 @@ CHECKS = {
  "C18": dict(level="model_checking", technique="Kani/CBMC bounded model checking of the real EEA/EIA code with ZUC replaced by capturing stubs handing out symbolic keystream",
              text="IV byte layout for all COUNT/BEARER/DIRECTION; number of keystream words requested for ALL 32-bit LENGTH (no overflow); EEA3 output words and EIA3 MAC equal the 3GPP formulas for symbolic key, message and keystream at LENGTH in {0,1,31,32,33,63,64,65,95,96}.",
              note="keystream arbitrary (C08); message content beyond 96 bits outside the bound.", design="§2 C18", engine="kani"),
+ "C03": dict(level="model_checking", technique="symbolic execution of the MIR of compute_za / sign / sign_raw / verify / verify_raw over bit-vectors with hash, group and mod-n layers as z3 uninterpreted functions; ring implication for sign-then-verify",
+             text="ZA = SM3(ENTL||ID||a||b||xG||yG||xA||yA) for every ID length listed (incl. the 8191/8192-byte boundary) with the standard's constants; e = SM3(ZA||M); signature = be(r)||be(s) with r=(e+x1) mod n, s=(1+d)^-1(k-rd) mod n for the last nonce, retry exactly on r=0, r+k=n, s=0; the signing equations imply the verification equation; verify_raw accepts IFF the standard's conditions hold (so conforming signatures are accepted).",
+             note="layers uninterpreted (C11 for their exactness); d in [1,n-2]; Annex A value reproduced by the Python reference only.", design="§2 C03", engine="mirsmt"),
  "C04": dict(level="model_checking", technique="Kani/CBMC bounded model checking of the real verify code, symbolic key/digest/x1/signature, EC+hash layer as arbitrary stubs",
              text="Bounded model checking of Sm2PublicKey::verify/verify_raw compiled from /repo: for every signature length 0..130 (quick: 12 boundary lengths) and all contents, acceptance implies the GB/T 32918.2 conditions and the [s]G+[t]P data-flow; panics are failures.",
              note="EC layer and SM3 are arbitrary logging stubs (their correctness is C11/C01); fp_from_mont returns a value < p; CBMC/CaDiCaL, Kani's MIR translation.", design="§2 C04"),
